@@ -36,6 +36,8 @@ def dict_atoms() -> List[str]:
     out += ["{'k0': %s, 'k1': %s}" % (V.string_key_dict(a), V.string_key_dict(b, start=1)) for a in (1, 2) for b in (1, 2, 3)]
     out += ["{1: %s}" % V.string_key_dict(n) for n in (1, 3, 11)]
     out += ["{'k0': {'k0': %s}}" % V.string_key_dict(n) for n in (1, 2, 3)]
+    # string keys that are not identifiers (they cannot be field names of a generated class)
+    out += ["{'content-type': 0}", "{'from': 0, 'k0': 0}", "{'k0': {'x-y': 0}}", "{'': 0, '1x': 0}"]
     return out
 
 
